@@ -32,6 +32,15 @@ def _card_le1(x):
     return x >= 0 and (x & (x - 1)) == 0
 
 
+class _Absent(object):
+    """value of get(d, k) for a key outside d: equal only to itself"""
+
+    def __repr__(self):
+        return "<absent>"
+
+
+_ABSENT = _Absent()
+
 CONC = {
     "subset": lambda a, b: (a & b) == a,
     "disjoint": lambda a, b: (a & b) == 0,
@@ -52,7 +61,7 @@ CONC = {
     "truthy": lambda a: bool(a),
     "eq": lambda a, b: a == b,
     "has": lambda d, k: k in d,
-    "get": lambda d, k: d[k],
+    "get": lambda d, k: (dict.__getitem__(d, k) if k in d else _ABSENT),  # never inserts (defaultdict)
     "len": len,
     "True": True, "False": False, "None": None,
 }
@@ -171,8 +180,8 @@ def take_snapshots(roots, cap=5000):
         sn = _Snap()
         snaps[id(o)] = (o, sn)
         for k, v in list(o.__dict__.items()):
-            if type(v) in (dict, list, set):
-                cv = type(v)(v)
+            if isinstance(v, (dict, list, set)):
+                cv = dict(v) if isinstance(v, dict) else (list(v) if isinstance(v, list) else set(v))
                 it = list(v.keys()) + list(v.values()) if isinstance(v, dict) else list(v)
                 todo.extend(x for x in it if _is_model_obj(x))
             else:
